@@ -8,6 +8,8 @@ import (
 	"context"
 	"encoding/json"
 	"fmt"
+	"io"
+	"net/http"
 	"strings"
 	"testing"
 
@@ -32,6 +34,45 @@ func (f *fakeSource) Fetch(_ context.Context, pid peer.ID) (*model.ProviderInfo,
 }
 func (f *fakeSource) FetchAll(context.Context) ([]*model.ProviderInfo, error) { return f.infos, nil }
 func (f *fakeSource) String() string                                          { return "fake" }
+
+// listingRT answers the library's HTTP source from memory: /providers is a
+// listing of three records, the one under test between a neighbour that has
+// extended providers of every kind and one that has none; /providers/<id>
+// the single record.
+type listingRT struct{ pi *model.ProviderInfo }
+
+func (t listingRT) RoundTrip(req *http.Request) (*http.Response, error) {
+	a := multiaddr.StringCast("/ip4/9.9.9.9/tcp/9")
+	nbA, nbB := fixture.Key("ed25519", 7).ID, fixture.Key("ed25519", 8).ID
+	before := &model.ProviderInfo{AddrInfo: peer.AddrInfo{ID: nbA, Addrs: []multiaddr.Multiaddr{a}}, LastAdvertisementTime: "2024-01-01T00:00:00Z",
+		ExtendedProviders: &model.ExtendedProviders{
+			Providers: []peer.AddrInfo{{ID: nbA, Addrs: []multiaddr.Multiaddr{a}}, {ID: nbB, Addrs: []multiaddr.Multiaddr{a}}},
+			Metadatas: [][]byte{[]byte("neighbour-md-0"), []byte("neighbour-md-1")},
+			Contextual: []model.ContextualExtendedProviders{
+				{ContextID: "c", Override: true, Providers: []peer.AddrInfo{{ID: nbB, Addrs: []multiaddr.Multiaddr{a}}}, Metadatas: [][]byte{[]byte("neighbour-ctx-md")}},
+				{ContextID: "d", Providers: []peer.AddrInfo{{ID: nbA}}},
+			}}}
+	after := &model.ProviderInfo{AddrInfo: peer.AddrInfo{ID: nbB, Addrs: []multiaddr.Multiaddr{a}}, LastAdvertisementTime: "2024-01-01T00:00:00Z"}
+	var v any
+	status := http.StatusOK
+	switch p := req.URL.Path; {
+	case p == "/providers":
+		v = []*model.ProviderInfo{before, t.pi, after}
+	case p == "/providers/"+t.pi.AddrInfo.ID.String():
+		v = t.pi
+	default:
+		status = http.StatusNotFound
+	}
+	var body []byte
+	if status == http.StatusOK {
+		var err error
+		if body, err = json.Marshal(v); err != nil {
+			panic(err)
+		}
+	}
+	return &http.Response{StatusCode: status, Status: http.StatusText(status), Proto: "HTTP/1.1", ProtoMajor: 1, ProtoMinor: 1,
+		Header: http.Header{"Content-Type": []string{"application/json"}}, Body: io.NopCloser(bytes.NewReader(body)), ContentLength: int64(len(body)), Request: req}, nil
+}
 
 var (
 	mainID = fixture.Key("ed25519", 0).ID
@@ -309,7 +350,7 @@ func firstLine(s string) string {
 
 func TestCheck(t *testing.T) {
 	r := vp.New("C17", "exploration",
-		"provider records: chain-level lists = every sequence of length <=N over {main, X, Y} x per-entry metadata {nil, empty, equal to looked-up, different}, every entry with addresses of its own (different from the provider record's and between chain-level and contextual lists); contextual sets for context IDs \"c\" and \"\" with the same alphabets (length <=M) and override on/off; metadata-list lengths {matching, truncated to every shorter length, one longer, nil} for lists of up to 3 providers; every record served directly and after a JSON round trip, entering the cache by the constructor's preload refresh and by a lookup miss; lookups: context ID in {\"c\",\"d\",empty} x metadata {nil,\"m\"}. Non-trivial: records with at least one extended provider. Distinct = distinct (record, transport, lookup).",
+		"provider records: chain-level lists = every sequence of length <=N over {main, X, Y} x per-entry metadata {nil, empty, equal to looked-up, different}, every entry with addresses of its own (different from the provider record's and between chain-level and contextual lists); contextual sets for context IDs \"c\" and \"\" with the same alphabets (length <=M) and override on/off; metadata-list lengths {matching, truncated to every shorter length, one longer, nil} for lists of up to 3 providers; every record served directly, after a JSON round trip, and through the library HTTP source (WithClient + WithSourceURL; its listing holds the record between two other providers, one with extended providers of every kind and one with none), entering the cache by the constructor's preload refresh and by a lookup miss; lookups: context ID in {\"c\",\"d\",empty} x metadata {nil,\"m\"}. Non-trivial: records with at least one extended provider. Distinct = distinct (record, transport, lookup).",
 		"records whose metadata list length differs from the provider list: an error is accepted; where results are produced they are held to the expansion rules with a provider that has no entry in the metadata list counting as 'no metadata of its own (absent)'; surplus metadata entries are ignored",
 		"records with two contextual sets for the same context ID are not generated",
 	)
@@ -344,8 +385,13 @@ func TestCheck(t *testing.T) {
 		// entry: how the record gets into the cache: with the preload refresh of
 		// the constructor, or by the first lookup missing (no preload)
 		for _, entry := range []string{"preload", "miss"} {
-			for _, viaJSON := range []bool{false, true} {
-				if viaJSON && rc.hasBinaryCtx() {
+			// via: how the source hands the record over: as the value built here,
+			// as that value after a JSON round trip, or through the library's
+			// own HTTP source (WithClient + WithSourceURL) whose listing holds
+			// two other providers' records around it
+			for _, via := range []string{"false", "true", "http"} {
+				viaJSON := via == "true"
+				if via != "false" && rc.hasBinaryCtx() {
 					continue // JSON cannot carry a string that is not UTF-8 unchanged
 				}
 				pi := rc.build()
@@ -369,13 +415,23 @@ func TestCheck(t *testing.T) {
 						continue
 					}
 				}
-				src := &fakeSource{infos: []*model.ProviderInfo{pi}}
-				pc, err := pcache.New(pcache.WithSource(src), pcache.WithRefreshInterval(0), pcache.WithPreload(entry == "preload"))
+				srcOpt := []pcache.Option{pcache.WithSource(&fakeSource{infos: []*model.ProviderInfo{pi}})}
+				if via == "http" {
+					srcOpt = []pcache.Option{pcache.WithClient(&http.Client{Transport: listingRT{pi}}), pcache.WithSourceURL("http://indexer.test")}
+				}
+				var pc *pcache.ProviderCache
+				var err error
+				if pn, m := vp.Guard(func() {
+					pc, err = pcache.New(append(srcOpt, pcache.WithRefreshInterval(0), pcache.WithPreload(entry == "preload"))...)
+				}); pn {
+					r.Violation("decode-of-a-record:panic", "rec|"+rkey, fmt.Sprintf("building the cache over the HTTP source panicked for record %s: %s", rkey, firstLine(m)), nil)
+					continue
+				}
 				if err != nil {
 					panic(err)
 				}
 				for li, lk := range lookups {
-					key := fmt.Sprintf("rec|%s|json=%v|lookup=%d", rkey, viaJSON, li)
+					key := fmt.Sprintf("rec|%s|json=%v|lookup=%d", rkey, via, li)
 					if entry != "preload" {
 						key += "|entered-by-" + entry
 					}
@@ -412,7 +468,7 @@ func TestCheck(t *testing.T) {
 					want := spec(rc, lk.ctx, lk.md)
 					if ok, why := sameResults(got, want); !ok {
 						r.Outcome("wrong")
-						r.Violation("GetResults:wrong:"+classify(rc, lk.ctx, got, want), key, fmt.Sprintf("record %s (json=%v) lookup ctx=%q md=%s: %s; got %v want %v", rkey, viaJSON, lk.ctx, mdStr(lk.md), why, fmtGot(got), want), nil)
+						r.Violation("GetResults:wrong:"+classify(rc, lk.ctx, got, want), key, fmt.Sprintf("record %s (json=%v) lookup ctx=%q md=%s: %s; got %v want %v", rkey, via, lk.ctx, mdStr(lk.md), why, fmtGot(got), want), nil)
 						continue
 					}
 					// the same lookup again on the same cache: same answer, and the first
